@@ -18,7 +18,10 @@
 (***************************************************************************)
 EXTENDS Framing, Json, IOUtils, TLC
 
-Rec == ndJsonDeserialize(IOEnv.TRACE)
+\* TLC does not cache this definition (every use would parse the file again): TInit parses the file once
+\* into TLC register 1 and every other use reads the register.
+RecFile == ndJsonDeserialize(IOEnv.TRACE)
+Rec == TLCGet(1)
 N == Len(Rec)
 
 (* --- the real fixed header: "l"/"B", type, flags, version, body length u32, *)
@@ -58,6 +61,7 @@ AttIds(a, lo, hi) ==
   IN Flat([i \in 1..Len(sel) |-> sel[i].ids])
 
 TInit ==
+  /\ TLCSet(1, RecFile)
   /\ l = 1 /\ rs = 1 /\ hsRem = 0 /\ bad = FALSE /\ dl = <<>> /\ cons = 0 /\ hsObs = 0 /\ errs = 0 /\ nsc = 0
   /\ sent = <<>> /\ stream = <<>> /\ att = <<>> /\ eof = FALSE
   /\ ReaderInit(FALSE)
